@@ -193,10 +193,19 @@ class GQueue(queue_mod.Queue):
 
     def get(self, *a, **k):
         e = ctl.gate("q.get")
+        if e is not None and e.get("dir") is False:
+            # the model's step: this timed / non-blocking get times out (the queue is empty at this point of the schedule)
+            with self.mutex:
+                empty = not self.queue
+            if empty:
+                raise queue_mod.Empty
         if e is not None and e.get("choice") is not None:
             with self.mutex:
                 self._want = e["choice"]
         return super().get(*a, **k)
+
+    def get_nowait(self):
+        return self.get(block=False)
 
     def put(self, item, *a, **k):
         ctl.gate("q.put")
@@ -206,7 +215,13 @@ class GQueue(queue_mod.Queue):
 
     def task_done(self):
         ctl.gate("q.task_done")
-        return super().task_done()
+        try:
+            return super().task_done()
+        except ValueError:
+            # queue.Queue: "task_done() called too many times" -- the model's sanity bit, observed on the real queue (the exception
+            # goes on to kill the calling thread, as in any real run)
+            ev("sanity", "task_done_underflow")
+            raise
 
     def join(self):
         ctl.gate("q.join")
@@ -264,7 +279,10 @@ class GThread(threading.Thread):
         THREAD_IDS[self.name] = idx
 
     def start(self):
-        ctl.gate("thread.start")
+        e = ctl.gate("thread.start")
+        if e is not None and e.get("dir") is False:
+            ev("start_refused", self.idx)
+            raise RuntimeError("can't start new thread")  # the model's step: the operating system refuses this thread
         ev("thread_start", self.idx)
         return super().start()
 
@@ -288,6 +306,7 @@ R.create_queue = lambda graph, initial_items, scheduler: GQueue(initial_items)
 GATED_VARS = set(spec.get("gated_vars", []))
 GATED_MAPS = set(spec.get("gated_maps", []))
 MAP_LINES = set(spec.get("map_lines", []))
+ITER_LINES = dict(spec.get("iter_lines", {}))
 _code_cache = {}
 
 
@@ -313,7 +332,9 @@ def _on_instruction(code, off):
         if q and q[0]["g"] == "INTERRUPT" and q[0].get("line") is not None and ins.positions is not None and ins.positions.lineno == q[0]["line"]:
             ctl.gate("line")
     op = ins.opname
-    if op in ("LOAD_DEREF", "STORE_DEREF") and ins.argval in GATED_VARS:
+    if op == "FOR_ITER" and ITER_LINES and ins.positions is not None and str(ins.positions.lineno) in ITER_LINES:
+        ctl.gate(f"iter:{ITER_LINES[str(ins.positions.lineno)]}")
+    elif op in ("LOAD_DEREF", "STORE_DEREF") and ins.argval in GATED_VARS:
         ctl.gate(f"var:{ins.argval}:{'load' if op == 'LOAD_DEREF' else 'store'}")
     elif GATED_MAPS and op in ("BINARY_SUBSCR", "STORE_SUBSCR") and ins.positions is not None and ins.positions.lineno in MAP_LINES:
         ctl.gate(f"map:{next(iter(GATED_MAPS))}:{'load' if op == 'BINARY_SUBSCR' else 'store'}")
@@ -389,6 +410,10 @@ def watchdog():
 
 def finish():
     bad = evaluate()
+    if any(e[0] == "start_refused" for e in EVENTS):
+        # an injected environment fault (a refused worker thread): run reports it instead of running the plan; only the
+        # termination / clean-up bits are meaningful for such a run (as in the model instance, which checks only those)
+        bad = [b for b in bad if b.startswith("c07_") or b in ("task_done_underflow",)]
     out = {"bad_observed": bad, "diverged": ctl.diverged[:3], "result": {k: (repr(v) if k != "hang" else v) for k, v in result.items()},
            "events": [list(map(str, e)) for e in EVENTS][:200], "expected_bad": spec.get("bad", [])}
     print(json.dumps(out, indent=1))
@@ -444,6 +469,8 @@ def evaluate():
                     first_fail = e[1]
             if returned:
                 bad.append("c07_running_after_return")
+        elif e[0] == "sanity":
+            bad.append(e[1])
         elif e[0] == "interrupt":
             interrupted = True
         elif e[0] == "main_put_done":
@@ -482,6 +509,8 @@ def evaluate():
             cyclic_rejected = type(exc).__name__ == "HasACycle" and is_cyclic
             if cyclic_rejected:
                 pass  # C07: a cyclic graph is reported up front, before anything ran
+            elif any(e[0] == "start_refused" for e in EVENTS) and isinstance(exc, RuntimeError):
+                pass  # the injected environment fault itself (a refused worker thread) is what run reports
             elif not anyfail:
                 bad.append("c06_spurious_error")
             else:
